@@ -194,11 +194,12 @@ def observe(st, ids):
     return out
 
 
-def run_history(backend, hist):
+def run_history(backend, hist, uuid_repeat_at=None):
     """Executes hist on a fresh backend, observing after every op.  Returns list of (op result, observation)."""
     ch = Chooser()
     res = []
     with World(ch, uuid_modules=UUID_MODULES, max_steps=20000) as w:
+        w.uuid_repeat_at = uuid_repeat_at
         st, _ = make_backend(backend, w)
         ids = {}
 
@@ -256,6 +257,91 @@ def judge_last(backend, hist, real, ids):
     if obs.get('load') != exp_load:
         out.append(({'kind': 'load-differs', 'op': op[0]}, 'history %r: load() = %r, reference %r' % (hist, obs.get('load'), exp_load)))
     return out, ref
+
+
+def start_during_case(opA, opB, res):
+    """disk store: operation B (on another message) is started right after the k-th file-system effect of operation A, for
+    every k -- also right behind A's last effect, when A is about to let go of the machinery both share.  Both must return,
+    the store must end up as after A then B, and no aio request may be in flight without the keep-awake greenlet."""
+    pre = [('write', 'A'), ('write', 'B')]
+    seq_real, _ = run_history('disk', pre + [opA, opB])
+    want = repr(sorted(seq_real[-1][1].items())) if seq_real else None
+    k = 0
+    while True:
+        k += 1
+        rs = {}
+        with World(Chooser(), uuid_modules=UUID_MODULES, max_steps=50000) as w:
+            st, fs = make_backend('disk', w)
+            ids = {}
+
+            def setup():
+                for op in pre:
+                    do_op(st, op, ids)
+            gevent.spawn(setup)
+            w.run_until_quiescent()
+            base = len(fs.log)
+
+            def runner(name, op):
+                try:
+                    rs[name] = do_op(st, op, ids)
+                except BaseException as e:
+                    rs[name] = ('raised', type(e).__name__, str(e)[:80])
+
+            def on_effect(n):
+                if n - base == k and 'Bstarted' not in rs:
+                    rs['Bstarted'] = True
+                    gevent.spawn(runner, 'B', opB)
+            fs.on_effect = on_effect
+            gevent.spawn(runner, 'A', opA)
+            w.run_until_quiescent()
+            fs.on_effect = None
+            n_eff = len(fs.log) - base
+            started = 'Bstarted' in rs
+            after = {}
+            if started:
+                def ob():
+                    after.update(observe(st, ids))
+                gevent.spawn(ob)
+                w.run_until_quiescent()
+            missing = list(fs.keeper_missing)
+        if not started:
+            break           # k is beyond A's last effect
+        res.evaluations += 1
+        res.count('start_during_cases')
+        res.interesting(('start-during', opA, opB, k))
+        rep = {'start_during': [list(opA), list(opB)], 'k': k}
+        where = '%r started right after effect %d of %r' % (opB, k, opA)
+        if 'A' not in rs or 'B' not in rs:
+            res.violation({'kind': 'operation-blocked', 'backend': 'disk', 'mode': 'start-during', 'op': (opA if 'A' not in rs else opB)[0]},
+                          '%s: %s never returned' % (where, 'A' if 'A' not in rs else 'B'), rep)
+        elif missing:
+            res.violation({'kind': 'aio-request-without-keep-awake', 'backend': 'disk', 'mode': 'start-during', 'op': opB[0]},
+                          '%s: aio request(s) in flight while no keep-awake greenlet was alive: %r' % (where, missing[:3]), rep)
+        elif any(isinstance(rs[x], tuple) and rs[x] and rs[x][0] == 'raised' for x in 'AB'):
+            res.violation({'kind': 'operation-raised', 'backend': 'disk', 'mode': 'start-during', 'op': opB[0]}, '%s: results %r / %r' % (where, rs['A'], rs['B']), rep)
+        elif repr(sorted(after.items())) != want and opA[0] != 'write' and opB[0] != 'write':
+            res.violation({'kind': 'overlap-differs-from-sequential', 'backend': 'disk', 'mode': 'start-during', 'opA': opA[0], 'opB': opB[0]},
+                          '%s: the store ends up as %r, A then B gives %r' % (where, after, seq_real[-1][1]), rep)
+        if k > 200:
+            break
+
+
+def uuid_repeat_case(backend, res):
+    """the id source hands out an id that is still in use (its k-th answer repeats the one before): the store draws again, the
+    message that owns the id is not disturbed"""
+    hist = [('write', 'A'), ('inc', 'A'), ('write', 'B'), ('ts', 'B', T2), ('write', 'C')]
+    for k in (1, 2, 3):
+        for n in range(1, len(hist) + 1):
+            h = hist[:n]
+            real, ids = run_history(backend, h, uuid_repeat_at=k)
+            res.evaluations += 1
+            res.count('uuid_repeat_histories')
+            res.interesting(('uuid-repeat', backend, k, n))
+            viols, _ = judge_last(backend, list(h), real, ids)
+            for sig, msg in viols:
+                res.violation(dict(sig, backend=backend, id_source='repeats'), msg + ' [the id source repeats its answer number %d]' % k,
+                              {'backend': backend, 'hist': [list(o) for o in h], 'uuid_repeat_at': k})
+                return
 
 
 def bfs(backend, depth, res):
@@ -546,6 +632,11 @@ def configs(tier, seed):
         cfgs.append({'mode': 'short-io', 'i': i, 'd': 1 if tier == 'quick' else 2})
     for b in ('dict', 'shelf', 'disk', 'redis', 'cloud'):
         cfgs.append({'mode': 'forms', 'backend': b})
+    for b in ('dict', 'shelf', 'disk', 'redis'):
+        cfgs.append({'mode': 'uuid-repeat', 'backend': b})
+    for a in (('ts', 'A', T1), ('inc', 'A'), ('dlv', 'A', (0,)), ('rm', 'A'), ('write', 'C')):
+        for bb in (('inc', 'B'), ('ts', 'B', T2), ('write', 'D')):
+            cfgs.append({'mode': 'start-during', 'a': list(a), 'b': list(bb)})
     for b in ('disk', 'redis', 'cloud'):
         for op in (('rm', 'B'), ('write', 'D'), ('inc', 'B'), ('ts', 'B', T2)):
             cfgs.append({'mode': 'load-overlap', 'backend': b, 'op': list(op)})
@@ -578,6 +669,13 @@ def run_config(cfg, tier, seed):
     elif cfg['mode'] == 'forms':
         index_forms(cfg['backend'], res)
         res.sample({'backend': cfg['backend'], 'index_forms': 9})
+    elif cfg['mode'] == 'start-during':
+        tt = lambda op: tuple(tuple(x) if isinstance(x, list) else x for x in op)
+        start_during_case(tt(cfg['a']), tt(cfg['b']), res)
+        res.sample({'backend': 'disk', 'start_during': [cfg['a'], cfg['b']]})
+    elif cfg['mode'] == 'uuid-repeat':
+        uuid_repeat_case(cfg['backend'], res)
+        res.sample({'backend': cfg['backend'], 'id_source_repeats_answer': [1, 2, 3]})
     elif cfg['mode'] == 'load-overlap':
         load_overlap_case(cfg['backend'], tuple(cfg['op']), res)
         res.sample({'backend': cfg['backend'], 'load_overlapping': cfg['op']})
@@ -613,12 +711,19 @@ def vacuity(counters, tier):
 def replay(rep):
     if 'hist' in rep:
         hist = [tuple(tuple(x) if isinstance(x, list) else x for x in op) for op in rep['hist']]
-        real, ids = run_history(rep['backend'], hist)
+        real, ids = run_history(rep['backend'], hist, rep.get('uuid_repeat_at'))
         viols, _ = judge_last(rep['backend'], hist, real, ids)
         if viols:
-            return True, viols[0][1]
+            return True, viols[0][1] + (' [the id source repeats its answer number %d]' % rep['uuid_repeat_at'] if rep.get('uuid_repeat_at') else '')
         return False, 'backend agrees with the reference store after %r' % (hist[-1],)
     res = Result()
+    if rep.get('start_during'):
+        tt = lambda op: tuple(tuple(x) if isinstance(x, list) else x for x in op)
+        start_during_case(tt(rep['start_during'][0]), tt(rep['start_during'][1]), res)
+        mine = [v for v in res.violations if v['replay'].get('k') == rep['k']]
+        if mine:
+            return True, mine[0]['message']
+        return False, 'both operations returned and the store ends up as after A then B'
     if rep.get('short_io'):
         tt = lambda op: tuple(tuple(x) if isinstance(x, list) else x for x in op)
         short_io_case([tt(o) for o in rep['short_io']], res, rep.get('d', 1))
